@@ -18,5 +18,11 @@ def selftest(rep, wd, cfg, traces):
                               ["RemovalCascades"], "cascade")
     def drop_edge(o):
         o["st"]["deps"] = o["st"]["deps"][1:]
-    tc.corrupt_and_judge(rep, wd, cfg, traces, lambda o: len(o["st"]["deps"]) >= 1, drop_edge,
-                         ["EdgesCoverCoinParents", "ExecutableHaveNoParents", "ParentBeforeChild"], "edge")
+    # only a coin edge (the child spends an output "<parent>:<n>"): dropping a contract edge breaks no invariant
+    import json, os
+    tpl = json.load(open(os.path.join(wd, "universe.json")))["tpl"]
+
+    def coin_edge(o):
+        d = o["st"]["deps"]
+        return len(d) >= 1 and any(i["k"] == "coin" and i["key"].startswith(d[0][0] + ":") for i in tpl[d[0][1]]["ins"])
+    tc.corrupt_and_judge(rep, wd, cfg, traces, coin_edge, drop_edge, ["EdgesCoverCoinParents"], "edge")
